@@ -248,7 +248,7 @@ def main(ck):
     labs += [l for l in case.labels if l.startswith(('act:', 'trn:', 'eq:'))]
     ck.case(nontrivial=nt, key=case.key(), sample=case.sample(kinds=sorted(kinds), **info) if nt else None, labels=labs)
 
-  ck.run_hypothesis(test, gc.cases(max_bodies=5 if ck.quick else 7), ck.budget(450, 5000), name='fwdinv')
+  ck.run_hypothesis(test, gc.cases(max_bodies=5 if ck.quick else 7), ck.budget(900, 8000), name='fwdinv')
   ck.extra['tolerances'] = dict(K_CONT=K_CONT, K_DISC=K_DISC, K_EFC=K_EFC, C_REP=C_REP)
   ck.extra['worst_observed_eps'] = {k: float('%.4g' % v) for k, v in worst.items()}
 
